@@ -28,6 +28,7 @@ def check_C01(tier, seed):
 
 def replay(pid, path):
     """re-validate a stored replay directory: the trace against the specification"""
+    path = os.path.abspath(path)
     meta = json.load(open(os.path.join(path, "replay.json")))
     tr = [f for f in os.listdir(path) if f.startswith("par_")]
     if not tr:
@@ -162,12 +163,13 @@ def check_C04(tier, seed):
         c.run(_models(tier, seed, ["mixed", "fanout", "zerodelay", "ties"], 3, 24, "small", "medium"), 4 if tier == "quick" else 12, emphasis=em)
         # rollback cascades that outlast a GVT round: one anti-message per hop walking through the LPs of two threads
         cem = lambda r: {"period": 0, "skew": r.choice([0, 0, 100, 300]), "ckpt": r.choice([1, 2, 0])}
-        c.run(_models(tier, seed + 9, ["chain"], 4, 40, "small", "medium"), 5 if tier == "quick" else 14, emphasis=cem)
+        c.run(_models(tier, seed + 9, ["chain"], 6, 40, "small", "medium"), 8 if tier == "quick" else 14, emphasis=cem)
         c.run(_models(tier, seed + 50, ["mixed", "fanout", "zerodelay"], 2, 15), 5 if tier == "quick" else 14, emphasis=DIST_EM)
         # a token bouncing between two ranks with nothing else pending: the distributed GVT has to follow it (colours, counters, late peeks)
-        pem = lambda r: {"ranks": 2, "threads": r.choice([1, 1, 2]), "net": r.choice([0, 1]), "batch": 1, "period": 0, "skew": r.choice([0, 80, 160, 320]),
-                         "policy": r.choice([0, 2, 4]), "switch": r.choice(["1/1", "1/2", "1/3", "1/4"])}
-        c.run(_models(tier, seed + 70, ["pingpong"], 3, 20), 8 if tier == "quick" else 16, emphasis=pem)
+        # (measured on the seeded change C04a: about 1 run in 8 reaches the window, 1 in 4 under the priority-based policy with one thread per rank)
+        pem = lambda r: {"ranks": 2, "threads": r.choice([1, 1, 1, 2]), "net": r.choice([0, 1]), "batch": 1, "period": 0, "skew": r.choice([0, 0, 80, 160, 320]),
+                         "policy": r.choice([2, 2, 0, 4]), "switch": r.choice(["1/1", "1/2", "1/3", "1/3", "1/4"])}
+        c.run(_models(tier, seed + 70, ["pingpong"], 5, 20), 10 if tier == "quick" else 16, emphasis=pem)
         return c.finish()
     finally:
         c.close()
@@ -195,7 +197,7 @@ ALLOC_RULE = ("system runs: generated models x configurations x schedules (disti
 def check_C05(tier, seed):
     c = syscamp.Campaign("C05", tier, seed, own_ids=["C05"])
     try:
-        c.build()
+        c.build(dist=True)
         _alloc_mc(c, tier)
         _tw_mc(c, tier, [("TimeWarpMC_m1.tla", "TimeWarpMC_m1.cfg", "m1 (2 LPs: rollback to at/between/before checkpoints)", 2)] +
                ([("TimeWarpMC_m2.tla", "TimeWarpMC_m2_k1.cfg", "m2 (3 LPs, cascade)", 1), ("TimeWarpMC_m2.tla", "TimeWarpMC_m2_k2.cfg", "m2", 2)]
@@ -204,6 +206,10 @@ def check_C05(tier, seed):
         em = lambda r: {"ckpt": r.choice([0, 1, 2, 3, 5, 7, 11]), "switch": r.choice(["1/8", "1/24", "1/96", "1/300"]),
                         "threads": r.choice([2, 3, 4])}
         c.run(_models(tier, seed, ["mixed", "fanout", "ties", "zerodelay"], 6, 30), 5 if tier == "quick" else 14, emphasis=em)
+        # rollbacks across ranks: the history then holds marks of remote sends, which coast forward must skip and rollback must cancel
+        c.micro_phase("d1", 32 if tier == "quick" else 1500, ranks=2, threads=1)
+        dem = lambda r: dict(DIST_EM(r), ckpt=r.choice([2, 3, 5, 7]))
+        c.run(_models(tier, seed + 50, ["mixed", "fanout", "zerodelay"], 3, 12), 4 if tier == "quick" else 12, emphasis=dem)
         return c.finish(rule=ALLOC_RULE)
     finally:
         c.close()
@@ -255,7 +261,7 @@ def check_C07(tier, seed):
             c.machinery.append({"property": "C07", "what": "Termination.tla model checking failed: %s" % (mc["error"] or "timeout")})
         # (b) the real termination.c driven through legal environment sequences, validated by TLC
         tr = os.path.join(c.scr, "term.ndjson")
-        nseq, ln = (700, 14) if tier == "quick" else (6000, 18)
+        nseq, ln = (4000, 16) if tier == "quick" else (30000, 20)
         rc, out = vlib.sh([os.path.join(c.bdir, "termdrv"), tr, str(seed), str(nseq), str(ln)], timeout=120)
         v = vlib.validate_trace("TerminationTrace.tla", "TerminationTrace.cfg", tr, timeout=1500)
         c.stats["states"] += v["distinct"] + mc["distinct"]
